@@ -726,7 +726,7 @@ func stateGrammar(dom map[string][]any) []item {
 // Depth: history depth bound per tier {quick, thorough}; 0 = configuration not run in that tier.
 var configs = []*config{
 	{Name: "ABDH", Depth: [2]int{3, 4}, Docs: []string{"A", "B", "D", "H"}, Many: [][]string{{"A", "B"}, {"H", "A"}}, RepQ: atom{"s", EQ, "a"}, DelQ: atom{"n", EQ, 1.0}},
-	{Name: "ACEG", Depth: [2]int{3, 4}, Docs: []string{"A", "C", "E", "G"}, Many: [][]string{{"A", "C"}, {"E", "E"}}, RepQ: atom{"n", EQ, 1.0}, DelQ: atom{"s", EQ, "a"}},
+	{Name: "ACEG", Depth: [2]int{3, 3}, Docs: []string{"A", "C", "E", "G"}, Many: [][]string{{"A", "C"}, {"E", "E"}}, RepQ: atom{"n", EQ, 1.0}, DelQ: atom{"s", EQ, "a"}},
 	{Name: "DFIJ", Depth: [2]int{2, 3}, Docs: []string{"D", "F", "I", "J"}, Many: [][]string{{"D", "F"}, {"I", "I"}}, RepQ: atom{"b", EQ, false}, DelQ: atom{"o.x", EQ, 0.0}},
 	{Name: "AEHM", Depth: [2]int{0, 3}, Docs: []string{"A", "E", "H", "M"}, Many: [][]string{{"A", "E"}, {"H", "H"}}, RepQ: atom{"o.x", EQ, 7.0}, DelQ: atom{"b", EQ, true}},
 	{Name: "BCGJ", Depth: [2]int{0, 3}, Docs: []string{"B", "C", "G", "J"}, Many: [][]string{{"B", "C"}, {"G", "G"}}, RepQ: atom{"s", EQ, "a\nb"}, DelQ: atom{"n", EQ, 1.0}},
@@ -777,8 +777,40 @@ func protoFields() []*protomodel.Field {
 	return fs
 }
 
+// Scratch directories are reused (a fixed set of paths under one fresh base directory): immudb registers metric series
+// per store path and never drops them, fresh paths for 10^5 stores would accumulate gigabytes.
+var (
+	scratchBase = lib.Scratch("c19")
+	slots       = func() chan string {
+		ch := make(chan string, 64)
+		for i := 0; i < cap(ch); i++ {
+			ch <- fmt.Sprintf("%s/%d", scratchBase, i)
+		}
+		return ch
+	}()
+)
+
+func getDir() string {
+	d := <-slots
+	os.RemoveAll(d)
+	if err := os.MkdirAll(d, 0755); err != nil {
+		panic(err)
+	}
+	return d
+}
+
+func putDir(d string) {
+	os.RemoveAll(d)
+	slots <- d
+}
+
+func finish(rule string, exhaustive bool) {
+	os.RemoveAll(scratchBase)
+	c.Finish(rule, exhaustive)
+}
+
 func newH(cf *config) *H {
-	h := &H{dir: lib.Scratch("c19"), tm: &model{}, um: &model{}, stats: map[string]int64{}}
+	h := &H{dir: getDir(), tm: &model{}, um: &model{}, stats: map[string]int64{}}
 	var err error
 	if h.st, err = store.Open(h.dir, storeOpts()); err != nil {
 		panic(err)
@@ -804,7 +836,7 @@ func newH(cf *config) *H {
 
 func (h *H) close() {
 	h.st.Close()
-	os.RemoveAll(h.dir)
+	putDir(h.dir)
 }
 
 func (h *H) rep(class, what, detail string) {
@@ -1836,7 +1868,7 @@ func main() {
 			}
 		}
 		c.AddStates(1, 1)
-		c.Finish("replay of one recorded history", false)
+		finish("replay of one recorded history", false)
 	}
 	parts := os.Getenv("C19_PARTS") // development aid: run only some parts (the run is then reported as not exhaustive)
 	if parts == "" {
@@ -1931,7 +1963,7 @@ func main() {
 		}
 		return p
 	}()), "example_queries": mid(cfgA.items)})
-	c.Finish("A: the complete query grammar (A_query_shapes shapes) on 5 collections holding the 13-document alphabet after a fixed 28-operation history; "+
+	finish("A: the complete query grammar (A_query_shapes shapes) on 5 collections holding the 13-document alphabet after a fixed 28-operation history; "+
 		"B: every history over the 12-operation alphabet up to the depth given in B_configurations for each 4-document configuration (no pruning), the configuration's grammar (B_query_shapes_per_state shapes; a 26-query light sweep after an operation that left the reference state unchanged) on all 5 collections after the last step, then id lookup / revision / audit of every document; "+
 		"C: every history up to C_depth over 4 operations at pkg/database level, every (document revision, known state) proof verified, every alteration of the operator set refused. "+
 		"evaluations = queries and proof verifications executed; distinct = distinct histories; states = distinct reference states (full revision history + index state)", done == depth)
